@@ -282,3 +282,56 @@ func Weighted(actions map[string]func(*rapid.T), weights map[string]int, check f
 	}
 	return res
 }
+
+// ---- known findings ----------------------------------------------------------
+
+type knownFile struct {
+	Findings []struct {
+		Property  string `json:"property"`
+		Status    string `json:"status"`
+		Signature string `json:"signature"`
+		What      string `json:"what"`
+	} `json:"findings"`
+}
+
+var knownOnce sync.Once
+var knownOpen map[string]bool
+
+// KnownOpen reports whether known_findings.json lists (property, signature) as an
+// open finding. The file is read once and never written.
+func KnownOpen(property, signature string) bool {
+	knownOnce.Do(func() {
+		knownOpen = map[string]bool{}
+		dir := os.Getenv("VERIF_DIR")
+		if dir == "" {
+			dir = "/verif"
+		}
+		b, err := os.ReadFile(filepath.Join(dir, "known_findings.json"))
+		if err != nil {
+			return
+		}
+		var kf knownFile
+		if json.Unmarshal(b, &kf) != nil {
+			return
+		}
+		for _, f := range kf.Findings {
+			if f.Status == "open" {
+				knownOpen[f.Property+"/"+f.Signature] = true
+			}
+		}
+	})
+	return knownOpen[property+"/"+signature]
+}
+
+// Scripted runs a fixed scenario once under rapid (the world constructor draws a
+// few irrelevant values such as the start offset).
+func Scripted(t *testing.T, prop func(*rapid.T)) {
+	t.Helper()
+	must(flag.Set("rapid.checks", "1"))
+	must(flag.Set("rapid.seed", strconv.FormatUint(SeedFor(t.Name()), 10)))
+	must(flag.Set("rapid.failfile", ""))
+	if os.Getenv("VERIF_REPLAY_FAIL") != "" {
+		t.Skip("replay of another test")
+	}
+	rapid.Check(t, prop)
+}
